@@ -216,6 +216,10 @@ inductive Ex where
   | without (a e : Ex)        -- a without e
   | count (a : Ex)            -- a count
   | single (a : Ex)           -- {a}
+  /-- `let {l₁, …, a} = s; a` (rest = false)  /  `let {l₁, …, ...t} = s; t` (rest = true); the items are literals -/
+  | setpat (lits : List (String × Rep)) (rest : Bool) (s : Ex)
+  /-- `s rank (r₁: .a₁, r₂: .a₂, …)` over a set of tuples: ranking attributes (name, attribute ranked by) -/
+  | rank (s : Ex) (attrs : List (String × String))
   deriving Inhabited
 
 def Ex.src : Ex → String
@@ -230,6 +234,11 @@ def Ex.src : Ex → String
   | .without a e => "(" ++ a.src ++ " without " ++ e.src ++ ")"
   | .count a => "(" ++ a.src ++ " count)"
   | .single a => "{" ++ a.src ++ "}"
+  | .setpat lits rest s =>
+    "(let {" ++ ", ".intercalate (lits.map (·.1) ++ [if rest then "...t" else "a"]) ++ "} = " ++ s.src ++ "; " ++
+      (if rest then "t" else "a") ++ ")"
+  | .rank s attrs =>
+    "(" ++ s.src ++ " rank (" ++ ", ".intercalate (attrs.map (fun p => p.1 ++ ": ." ++ p.2)) ++ "))"
 
 inductive Res where
   | ok (r : Rep)
@@ -242,6 +251,25 @@ abbrev EnumOrder := List Rep → List Rep
 namespace Impl
 
 def memberOf (x : Rep) (s : Rep) : Bool := (members s).any (fun y => C06.Impl.equal y x)
+
+def isGTupleB : Rep → Bool
+  | .gtuple _ => true
+  | _ => false
+
+def attrOfR (n : String) : Rep → Rep
+  | .gtuple as => C06.Impl.lookupAttr n as
+  | r => r
+
+/-- `Tuple.With`: set (replace) attributes -/
+def withAttrs (extra : List (String × Rep)) : Rep → Rep
+  | .gtuple as => .gtuple (as.filter (fun p => !extra.any (fun q => q.1 == p.1)) ++ extra)
+  | r => r
+
+/-- `Rank`, by its specification (C06 `rank_by_less`): the rank of a row for a ranking attribute is the number of rows
+whose value of that attribute is strictly smaller -/
+def rankRow (attrs : List (String × String)) (rows : List Rep) (row : Rep) : Rep :=
+  withAttrs (attrs.map (fun p =>
+    (p.1, .num ((rows.filter (fun y => C06.Impl.less (attrOfR p.2 y) (attrOfR p.2 row))).length : Int)))) row
 
 /-- evaluation in which every walk over a set goes through `π` -/
 def evalUnder (π : EnumOrder) : Ex → Res
@@ -288,6 +316,26 @@ def evalUnder (π : EnumOrder) : Ex → Res
   | .single a =>
     match evalUnder π a with
     | .ok x => .ok (C06.Impl.build [x])
+    | .err => .err
+  | .setpat lits rest a =>
+    match evalUnder π a with
+    | .ok S =>
+      if isSet S then
+        -- every literal item must be a member; what is left binds the identifier (exactly one member) or `...t`
+        if lits.all (fun l => (π (members S)).any (fun y => C06.Impl.equal y l.2)) then
+          if rest then .ok (C06.Impl.build ((π (members S)).filter (fun y => !lits.any (fun l => C06.Impl.equal y l.2))))
+          else match (π (members S)).filter (fun y => !lits.any (fun l => C06.Impl.equal y l.2)) with
+            | [x] => .ok x
+            | _ => .err
+        else .err
+      else .err
+    | .err => .err
+  | .rank a attrs =>
+    match evalUnder π a with
+    | .ok S =>
+      if isSet S && (members S).all isGTupleB then
+        .ok (C06.Impl.build ((π (members S)).map (rankRow attrs (π (members S)))))
+      else .err
     | .err => .err
 
 end Impl
